@@ -447,7 +447,7 @@ def diversify_csr(
                 if retained[l] == 1:
 
                     d = dist(
-                        source_data[current_indices[j]], source_data[current_indices[k]]
+                        source_data[current_indices[j]], source_data[current_indices[l]]
                     )
                     if current_data[l] > FLOAT32_EPS and d < current_data[j]:
                         if tau_rand(rng_state) < prune_probability:
